@@ -15,7 +15,8 @@
    properties between the state before and after a step; MeshTrace.tla
    asserts the same operators on lines recorded from the real router.
 
-   Switches: HbFilterDirect / CutAtGE / SendsGraft / BubbleToD are TRUE in the code;
+   Switches: HbFilterDirect / CutAtGE / SendsGraft / BubbleToD / FreshBackoff (the graft steps
+   after the cut look the backoff map up again) / DownCleansFanout are TRUE in the code;
    flipping one gives a configuration that MUST fail (non-vacuity).
    AllowHalf = TRUE lets the environment kill only the outbound stream: with
    GraftNeedsStream = FALSE (the code as found) P_C07_Connected fails = D6.
@@ -25,7 +26,7 @@ EXTENDS Integers, FiniteSets, Sequences, TLC
 
 CONSTANTS NP, D, Dlo, Dhi, Dscore, Dout, OppTicks, OppPeers, OppThr,
           MaxEvents, MaxHb, MaxDrops, InitMode, ClassMode, InitJoined,
-          HbFilterDirect, CutAtGE, SendsGraft, BubbleToD,
+          HbFilterDirect, CutAtGE, SendsGraft, BubbleToD, FreshBackoff, DownCleansFanout,
           JoinFilterDirect, GraftNeedsStream, AllowDirectInFanout, AllowHalf
 
 Peers  == 1..NP
@@ -193,7 +194,7 @@ PeerDown(p, to) ==
     /\ conn' = [conn EXCEPT ![p] = to]
     /\ sub' = [sub EXCEPT ![p] = FALSE]
     /\ mesh' = mesh \ {p}
-    /\ fanout' = fanout \ {p}
+    /\ fanout' = IF DownCleansFanout THEN fanout \ {p} ELSE fanout
     /\ ctl' = [ctl EXCEPT ![p] = "none"]
     /\ sent' = {} /\ UNCHANGED ndrop
     /\ UNCHANGED <<sc, direct, bo, cap, joined, fanoutOn>>
@@ -345,13 +346,16 @@ HbMesh(bo0) ==
         LET X   == m2 \ K
             bo3 == [p \in Peers |-> IF p \in X THEN "active" ELSE bo1[p]]
             oc  == Cardinality(K \cap Outb)
+            \* the map the later graft steps consult: looked up again after the cut (a snapshot taken at the top of
+            \* the loop is nil, and stays blind to this heartbeat's prunes, when the topic had no entry yet)
+            boL == IF FreshBackoff \/ (\E p \in Peers : bo0[p] # "none") THEN bo3 ELSE bo0
         IN
         \E Q \in (IF Cardinality(K) >= Dlo /\ oc < Dout
-                    THEN TakeSets({p \in CodeElig(K, bo3, HbFilterDirect) : conn[p] = "out"}, Dout - oc)
+                    THEN TakeSets({p \in CodeElig(K, boL, HbFilterDirect) : conn[p] = "out"}, Dout - oc)
                     ELSE {{}}) :
           LET m4 == K \cup Q IN
           \E O \in (IF (ticks + 1) % OppTicks = 0 /\ Cardinality(m4) > 1 /\ MP!Median(m4, sc) < OppThr
-                      THEN TakeSets({p \in Cand \ m4 : (HbFilterDirect => ~direct[p]) /\ bo3[p] = "none"
+                      THEN TakeSets({p \in Cand \ m4 : (HbFilterDirect => ~direct[p]) /\ boL[p] = "none"
                                                         /\ sc[p] > MP!Median(m4, sc)}, OppPeers)
                       ELSE {{}}) :
             /\ mesh' = m4 \cup O
